@@ -445,8 +445,9 @@ Proof.
     apply (ge2_shift num den Hnum Hden (man * W) (L - 127 - clz) clz ltac:(lia)).
     replace (L - 127 - clz + clz) with (L - 127) by lia.
     unfold ge2, num, den. replace (- (L - 127)) with (127 - L) by lia.
-    pose proof (P2_pos (L - 127)). pose proof (P2_pos (127 - L)). pose proof (P10_pos q). pose proof (P10_pos (- q)).
-    nia. }
+    replace (man * W * P2 (L - 127) * P10 (- q)) with (man * (W * P2 (L - 127) * P10 (- q))) by ring.
+    replace (man * P10 q * P2 (127 - L)) with (man * (P10 q * P2 (127 - L))) by ring.
+    apply Z.mul_le_mono_nonneg_l; lia. }
   assert (L1 : lt2 num den (w * (W + 1)) (L - 127 - clz)).
   { unfold w. replace (man * 2 ^ clz * (W + 1)) with (man * (W + 1) * 2 ^ clz) by ring.
     apply (lt2_shift num den Hnum Hden (man * (W + 1)) (L - 127 - clz) clz ltac:(lia)).
@@ -463,8 +464,11 @@ Proof.
   destruct (mul64_spec w hi Hw64 ltac:(lia)) as (HX & HxLo & HxHi).
   destruct (mul64 w hi) as [xHi xLo] eqn:Hmul. cbn [fst snd] in HX, HxLo, HxHi.
   assert (HX126 : 2 ^ 62 <= xHi).
-  { assert (2 ^ 63 * 2 ^ 63 <= w * hi) by nia.
-    change (2 ^ 63 * 2 ^ 63) with (2 ^ 62 * two64) in H. nia. }
+  { assert (2 ^ 63 * 2 ^ 63 <= w * hi) by (apply Z.mul_le_mono_nonneg; lia).
+    change (2 ^ 63 * 2 ^ 63) with (2 ^ 62 * two64) in H.
+    destruct (Z_le_gt_dec (2 ^ 62) xHi) as [|G]; [assumption|exfalso].
+    assert (xHi * two64 <= (2 ^ 62 - 1) * two64) by (apply Z.mul_le_mono_nonneg_r; lia).
+    change two64 with 18446744073709551616 in *. change (2 ^ 62) with 4611686018427387904 in *. lia. }
   rewrite (carry_test xLo w HxLo Hw64).
   destruct ((xHi mod 512 =? 511) && (two64 <=? xLo + w)) eqn:Hguard1.
   - (* wider approximation *)
@@ -476,16 +480,23 @@ Proof.
     rewrite (carry_test yLo w HyLo Hw64).
     (* the merged 128-bit value *)
     set (mLo := u64 (yHi + xLo)). set (mHi := if two64 <=? yHi + xLo then u64 (xHi + 1) else xHi).
-    assert (HP : w * W = (xHi * two64 + xLo + yHi) * two64 + yLo) by (unfold W; nia).
-    assert (HP192 : w * W < two64 * two64 * two64).
-    { assert (W < two64 * two64) by (unfold W; nia). nia. }
-    assert (HXm : xHi * two64 + xLo + yHi < two64 * two64) by nia.
+    assert (HP : w * W = (xHi * two64 + xLo + yHi) * two64 + yLo).
+    { unfold W. rewrite Z.mul_add_distr_l, Z.mul_assoc, HX, HY. ring. }
+    assert (HP192 : w * W < two64 * (two64 * two64)).
+    { assert (W < two64 * two64) by (unfold W; change two64 with 18446744073709551616 in *; lia).
+      assert (0 <= W) by (unfold W; change two64 with 18446744073709551616 in *; change (2 ^ 63) with 9223372036854775808 in *; lia).
+      apply Z.mul_lt_mono_nonneg; lia. }
+    assert (HXm : xHi * two64 + xLo + yHi < two64 * two64).
+    { change two64 with 18446744073709551616 in *. lia. }
     assert (Hm : mHi * two64 + mLo = xHi * two64 + xLo + yHi /\ 0 <= mLo < two64 /\ 2 ^ 62 <= mHi < two64).
-    { unfold mLo, mHi. rewrite u64_mod. destruct (Z.leb_spec two64 (yHi + xLo)) as [Hc|Hc].
-      - replace (yHi + xLo) with ((yHi + xLo - two64) + 1 * two64) at 1 by lia.
-        rewrite Z_mod_plus_full, Z.mod_small by lia.
-        assert (xHi + 1 < two64) by nia. rewrite u64_small by lia. lia.
-      - rewrite Z.mod_small by lia. lia. }
+    { unfold mLo, mHi. rewrite (u64_mod (yHi + xLo)). destruct (Z.leb_spec two64 (yHi + xLo)) as [Hc|Hc].
+      - assert (Emod : (yHi + xLo) mod two64 = yHi + xLo - two64).
+        { replace (yHi + xLo) with ((yHi + xLo - two64) + 1 * two64) at 1 by lia.
+          rewrite Z_mod_plus_full, Z.mod_small by lia. reflexivity. }
+        rewrite Emod.
+        assert (xHi + 1 < two64) by (change two64 with 18446744073709551616 in *; lia). rewrite u64_small by lia.
+        change two64 with 18446744073709551616 in *. change (2 ^ 62) with 4611686018427387904 in *. lia.
+      - rewrite Z.mod_small by lia. change two64 with 18446744073709551616 in *. change (2 ^ 62) with 4611686018427387904 in *. lia. }
     destruct Hm as (HmX & HmLo & HmHi).
     destruct ((mHi mod 512 =? 511) && (u64 (mLo + 1) =? 0) && (two64 <=? yLo + w)) eqn:Hguard2; [discriminate|].
     intros Hb.
@@ -499,18 +510,20 @@ Proof.
     + rewrite <- Hs64. apply (lt2_shift num den Hnum Hden (mHi * two64 + mLo + w') (L - 127 - clz) 64 ltac:(lia)).
       apply (lt2_mono num den Hnum Hden (w * (W + 1))); [|exact L1].
       change (2 ^ 64) with two64. rewrite HmX. unfold w'.
-      destruct (Z.leb_spec two64 (yLo + w)); nia.
+      replace (w * (W + 1)) with (w * W + w) by ring. rewrite HP.
+      destruct (Z.leb_spec two64 (yLo + w)); change two64 with 18446744073709551616 in *; lia.
     + (* the refined interval stays inside one step of the dropped bits *)
       destruct (split54 mHi HmHi) as (_ & _ & _ & HlowB & Hlow511 & _).
       set (msb := mHi / 2 ^ 63) in *. set (lowH := mHi mod 2 ^ (msb + 9)) in *.
       assert (Pm : 0 < 2 ^ (msb + 9)) by lia.
       unfold w'. destruct (Z.leb_spec two64 (yLo + w)) as [Hc2|Hc2].
       * rewrite andb_true_r in Hguard2. apply andb_false_iff in Hguard2 as [G|G].
-        -- apply Z.eqb_neq in G. specialize (Hlow511 G). nia.
+        -- apply Z.eqb_neq in G. specialize (Hlow511 G).
+           change two64 with 18446744073709551616 in *. lia.
         -- apply Z.eqb_neq in G. assert (mLo + 1 <> two64).
            { intros E. apply G. rewrite E. rewrite u64_mod. apply Z.mod_same. lia. }
-           nia.
-      * nia.
+           change two64 with 18446744073709551616 in *. lia.
+      * change two64 with 18446744073709551616 in *. lia.
   - (* no refinement needed *)
     intros Hb.
     apply (el_tail_sound num den neg xHi xLo w s b Hnum Hden ltac:(lia) HxLo); try exact Hb.
@@ -518,14 +531,30 @@ Proof.
     + unfold s. lia.
     + rewrite <- Hs64. apply (ge2_shift num den Hnum Hden (xHi * two64 + xLo) (L - 127 - clz) 64 ltac:(lia)).
       apply (ge2_mono num den Hnum Hden (w * W)); [|exact G1].
-      change (2 ^ 64) with two64. unfold W. nia.
+      change (2 ^ 64) with two64. unfold W. rewrite Z.mul_add_distr_l, Z.mul_assoc, HX.
+      assert (0 <= w * lo) by (apply Z.mul_nonneg_nonneg; lia). lia.
     + rewrite <- Hs64. apply (lt2_shift num den Hnum Hden (xHi * two64 + xLo + w) (L - 127 - clz) 64 ltac:(lia)).
       apply (lt2_mono num den Hnum Hden (w * (W + 1))); [|exact L1].
-      change (2 ^ 64) with two64. unfold W. nia.
+      change (2 ^ 64) with two64. unfold W.
+      replace (w * (hi * two64 + lo + 1)) with (w * hi * two64 + w * lo + w) by ring. rewrite HX.
+      assert (w * lo <= w * (two64 - 1)) by (apply Z.mul_le_mono_nonneg_l; lia).
+      change two64 with 18446744073709551616 in *. lia.
     + destruct (split54 xHi ltac:(lia)) as (_ & _ & _ & HlowB & Hlow511 & _).
       set (msb := xHi / 2 ^ 63) in *. set (lowH := xHi mod 2 ^ (msb + 9)) in *.
       assert (Pm : 0 < 2 ^ (msb + 9)) by lia.
       apply andb_false_iff in Hguard1 as [G|G].
-      * apply Z.eqb_neq in G. specialize (Hlow511 G). nia.
-      * apply Z.leb_gt in G. nia.
+      * apply Z.eqb_neq in G. specialize (Hlow511 G). change two64 with 18446744073709551616 in *. lia.
+      * apply Z.leb_gt in G. change two64 with 18446744073709551616 in *. lia.
 Qed.
+
+(** the hypotheses are satisfiable: with the table row of 1e5 the literal 123e5 takes the plain branch *)
+Example eisel_lemire_ex T :
+  t_minexp10 T = -348 -> t_maxexp10 T = 347 ->
+  nth 353 (t_pow10 T) (0, 0) = (0, 14073748835532800000) ->      (* 10^5 * 2^47 = 0xC350000000000000 *)
+  eiselLemire64_m T 123 5 false = Some 4712865122819768320.
+Proof.
+  intros H1 H2 H3. unfold eiselLemire64_m. rewrite H1, H2.
+  change (Z.to_nat (5 - -348)) with 353%nat. rewrite H3. vm_compute. reflexivity.
+Qed.
+
+Print Assumptions eisel_lemire_sound.
